@@ -157,6 +157,20 @@ func checkRoundTrip(c TextCase) (v ev.Verdict) {
 		targets := []func() any{func() any { var a any; return &a }}
 		if want.K == ref.KObj {
 			targets = append(targets, func() any { m := map[string]any{}; return &m })
+			// an object of objects also into a map of maps: every member value is decoded as a map
+			// of its own, and the key list reported must still be the root's
+			nested := len(want.Keys) > 0
+			for _, x := range want.Vals {
+				if x.K != ref.KObj {
+					nested = false
+				}
+			}
+			if nested {
+				if d.name == "Unmarshal" {
+					v.Classes = append(v.Classes, "map-of-maps-target")
+				}
+				targets = append(targets, func() any { m := map[string]map[string]any{}; return &m })
+			}
 		}
 		if want.K == ref.KArr {
 			targets = append(targets, func() any { var s []any; return &s })
@@ -181,6 +195,12 @@ func checkRoundTrip(c TextCase) (v ev.Verdict) {
 				val = *p
 			case *map[string]any:
 				val = *p
+			case *map[string]map[string]any:
+				m := map[string]any{}
+				for k, x := range *p {
+					m[k] = map[string]any(x)
+				}
+				val = m
 			case *[]any:
 				val = *p
 				if *p == nil {
@@ -197,7 +217,7 @@ func checkRoundTrip(c TextCase) (v ev.Verdict) {
 				return v
 			}
 			// key list: for an object decoded into a map type
-			if ti == 1 && want.K == ref.KObj && (d.name == "UnmarshalWithKeys" || d.name == "UnmarshalValidWithKeys") {
+			if ti >= 1 && want.K == ref.KObj && (d.name == "UnmarshalWithKeys" || d.name == "UnmarshalValidWithKeys") {
 				wk := uniqueKeys(want)
 				if fmt.Sprintf("%q", keys) != fmt.Sprintf("%q", wk) && !(len(keys) == 0 && len(wk) == 0) {
 					v.Err = fmt.Errorf("%s reports keys %q, the document order is %q", d.name, keys, wk)
@@ -305,7 +325,7 @@ func checkTransforms(c TextCase) ev.Verdict {
 
 var (
 	rtUnit = ev.Unit[TextCase]{Name: "round-trip", Draw: drawText, Check: checkRoundTrip,
-		Rule: "generated JSON texts in arbitrary spelling (numbers beyond float64, escapes of every form, control and non-BMP characters, lone surrogates) decoded with Unmarshal, UnmarshalWithKeys, UnmarshalValid, UnmarshalValidWithKeys into any / map[string]any / []any, re-encoded with Marshal, MarshalEscaped(true/false), MarshalIndent and read back by the independent reader; oracle: value Equal (number literals, code points, nesting, array order), key list = member names in document order for map targets, no raw <,>,& with escaping on; every returned byte slice and key list still holds its content after all later codec calls of the case; non-trivial = a number longer than 15 characters or an escape sequence in the text, or an object with >= 2 keys checked for order"}
+		Rule: "generated JSON texts in arbitrary spelling (numbers beyond float64, escapes of every form, control and non-BMP characters, lone surrogates) decoded with Unmarshal, UnmarshalWithKeys, UnmarshalValid, UnmarshalValidWithKeys into any / map[string]any / []any / (an object of objects) map[string]map[string]any, re-encoded with Marshal, MarshalEscaped(true/false), MarshalIndent and read back by the independent reader; oracle: value Equal (number literals, code points, nesting, array order), key list = member names in document order for map targets, no raw <,>,& with escaping on; every returned byte slice and key list still holds its content after all later codec calls of the case; non-trivial = a number longer than 15 characters or an escape sequence in the text, or an object with >= 2 keys checked for order"}
 	trUnit = ev.Unit[TextCase]{Name: "transforms", Draw: drawText, Check: checkTransforms,
 		Rule: "the same texts through Compact, Indent and HTMLEscape; oracle: Compact = input with whitespace outside strings removed (independent tokenizer) = encoding/json.Compact; Indent minus whitespace = Compact and = encoding/json.Indent byte for byte; HTMLEscape = input with <,>,&,U+2028,U+2029 replaced, byte-exact = encoding/json.HTMLEscape; non-trivial = text holds insignificant whitespace or one of <,>,&"}
 )
